@@ -103,13 +103,19 @@ def hist_harness(L, sw, ch, sr, K, overlap, limit, use_recorder_cls, advanced=Fa
     return path
 
 
-def plain_harness(L):
+def plain_harness(L, variant="plain"):
     util = L.modules["util"]
 
     def path(e):
         D, data = byt.sym_audio(e, "D", 2)
         e.assume(I("B") >= 1)
-        r = util.AudioReader(data, block_dur=SymRat(I("B"), 10), sr=10, sw=2, ch=1)
+        kw = {}
+        if "limit" in variant:
+            kw["max_read"] = byt.sym_max_read(e, 10)[0]
+        if "overlap" in variant:
+            e.assume(z3.And(I("H") >= 1, I("H") < I("B")))
+            kw["hop_dur"] = SymRat(I("H"), 10)
+        r = util.AudioReader(data, block_dur=SymRat(I("B"), 10), sr=10, sw=2, ch=1, **kw)
         bad = []
         for name in ("data", "rewind"):
             try:
@@ -121,7 +127,7 @@ def plain_harness(L):
                 bad.append("%s raised %s" % (name, type(ex).__name__))
         if not bad:
             return {"status": "ok"}
-        return {"status": "cex", "failing": bad, "cex": {"kind": "plain", "attrs": bad}}
+        return {"status": "cex", "failing": bad, "cex": {"kind": "plain", "attrs": bad, "variant": variant}}
     return path
 
 
@@ -143,7 +149,12 @@ def mk(m, syms, meta, ops):
 def replay_fn(c):
     ak = loader.real_auditok()
     if c.get("kind") == "plain":
-        r = ak.AudioReader(b"\0\0" * 4, block_dur=0.1, sr=10, sw=2, ch=1)
+        kw = {}
+        if "limit" in c.get("variant", ""):
+            kw["max_read"] = 0.2
+        if "overlap" in c.get("variant", ""):
+            kw["hop_dur"] = 0.1
+        r = ak.AudioReader(b"\0\0" * 4, block_dur=0.2 if kw.get("hop_dur") else 0.1, sr=10, sw=2, ch=1, **kw)
         bad = []
         for name in ("data", "rewind"):
             try:
@@ -260,6 +271,7 @@ def run(rep):
         ex = explore(hist_harness(L, 2, 1, 10, min(K, 4), overlap, False, False, advanced=True))
         rep.add_exploration(hn, ex)
         tok.handle_cex(rep, hn, ex, replay_fn, ideal=True)
-    ex = explore(plain_harness(L), workers=1)
-    rep.add_exploration("non-recording reader", ex)
-    tok.handle_cex(rep, "non-recording reader", ex, replay_fn)
+    for variant in ("plain", "limit", "overlap", "limit+overlap"):
+        ex = explore(plain_harness(L, variant), workers=1)
+        rep.add_exploration("non-recording reader[%s]" % variant, ex)
+        tok.handle_cex(rep, "non-recording reader", ex, replay_fn)
